@@ -57,6 +57,54 @@ def anc1(ctx, lib, roles):
     ctx.floor("ANC-1", "abstract paths of RegExp::fmt", n, 48)
 
 
+ORDER_KEEPING = ("collect_vec", "collect", "map", "into_iter", "iter", "cloned", "copied", "to_vec", "rev_sorted_marker")
+
+
+def _derives_in_order(vec, tgt):
+    """vec is tgt itself or an element-wise, order-preserving image of it (into_iter / map / collect chain)"""
+    x = local.peel(vec)
+    for _ in range(12):
+        if x == tgt or (x[0] == tgt[0] == "call" and x[1] == tgt[1] and len(x) > 3 and len(tgt) > 3 and x[3] == tgt[3]):
+            return True
+        if x[0] == "call" and x[1].rsplit("::", 1)[-1] in ORDER_KEEPING and x[2]:
+            x = local.peel(x[2][0])
+            continue
+        return False
+    return False
+
+
+def _sort_key_kind(lib, fi, sort_term, sorted_vec):
+    """'graphemes' for Reverse(len(option)); 'chars' for Reverse(item.0) where item.0 is Chars::count of a test case zipped to the clusters; else text"""
+    key = fi.defs.operand(sort_term["args"][1])
+    if not (key[0] == "agg" and key[1] == "closure" and lib.body(key[2]) is not None):
+        return None, "sort key is not a closure"
+    kr = local.Defs(lib.body(key[2])).local(0)
+    if not (kr[0] == "agg" and kr[2] and kr[2].startswith("std::cmp::Reverse") and kr[3]):
+        return None, "sort key is %s, expected Reverse(..) (longer alternatives first)" % local.show(kr)
+    inner = local.peel(kr[3][0])
+    if inner[0] == "call" and inner[1].endswith("::len") and lib.body(inner[1]) is not None:
+        return "graphemes", "sort_by_key(|o| Reverse(o.len())) dominates"
+    if inner[0] == "field" and inner[1] in (0, "0") and any(x[0] == "param" for x in local.walk(inner)):
+        # the first tuple component of the sorted items: must be a char count zipped in front of the literals
+        counts = False
+        for x in local.walk(sorted_vec):
+            if x[0] == "agg" and x[1] == "closure" and lib.body(x[2]) is not None:
+                r = local.peel(local.Defs(lib.body(x[2])).local(0))
+                if r[0] == "call" and r[1].endswith("str::Chars as std::iter::Iterator>::count") and any(y[0] == "param" for y in local.walk(r)):
+                    counts = True
+        zipped = any(x[0] == "call" and x[1].endswith("Iterator::zip") for x in local.walk(sorted_vec))
+        paired = False
+        for x in local.walk(sorted_vec):
+            if x[0] == "agg" and x[1] == "closure" and lib.body(x[2]) is not None:
+                r = local.peel(local.Defs(lib.body(x[2])).local(0))
+                if r[0] == "agg" and r[1] == "tuple" and len(r[3]) == 2 and local.peel(r[3][0])[0] == "field" and local.peel(r[3][0])[1] in (0, "0"):
+                    paired = True       # (count, literal-of-the-cluster): the count is passed through unchanged
+        if counts and zipped and paired:
+            return "chars", "sort_by_key(|(chars, _)| Reverse(chars)) with chars = test_case.chars().count() dominates"
+        return None, "items are ordered by their first component, which is not the char count of the test case"
+    return None, "sort key is %s, expected Reverse(len(option)) or Reverse(char count)" % local.show(kr)
+
+
 def alt1(ctx, lib):
     makers = {}
     for b in lib.bodies:
@@ -68,12 +116,14 @@ def alt1(ctx, lib):
                         and norm(s["rv"]["adt"]) == "expression::Expression" and s["rv"]["variant"] == "Alternation":
                     makers.setdefault(b.path, []).append((b, bi, s))
     if not ctx.floor("ALT-1", "functions constructing Expression::Alternation", len(makers), 1):
-        return
+        return {}
+    kinds = {}
     for path, lst in makers.items():
         for b, bi, s in lst:
             fi = guards.FnInfo.of(b)
             vec = local.peel(fi.defs.operand(s["rv"]["ops"][0]))
             ok = False
+            kind = None
             why = "no sort of the alternatives dominates the construction"
             for bj, t in b.calls():
                 n = callee_name(t) or ""
@@ -84,24 +134,70 @@ def alt1(ctx, lib):
                     tgt = local.peel(tgt[2][0])
                 if not fi.cfg.dominates(bj, bi):
                     continue
-                # the sorted vector is the one stored in the variant (same local)
-                same = (tgt == vec) or (tgt[0] == vec[0] == "call" and tgt[3] == vec[3]) or _same_root(fi, t["args"][0], s["rv"]["ops"][0])
+                # the sorted vector is the one stored in the variant (same local), or the stored one is its element-wise image
+                same = (tgt == vec) or (tgt[0] == vec[0] == "call" and tgt[3] == vec[3]) or _same_root(fi, t["args"][0], s["rv"]["ops"][0]) or _derives_in_order(vec, tgt)
                 if not same:
                     why = "the sorted vector is not the one stored in the alternation"
                     continue
-                key = fi.defs.operand(t["args"][1])
-                if key[0] == "agg" and key[1] == "closure" and lib.body(key[2]) is not None:
-                    kr = local.Defs(lib.body(key[2])).local(0)
-                    txt = local.show(kr)
-                    if kr[0] == "agg" and kr[2] and kr[2].startswith("std::cmp::Reverse") and kr[3] and kr[3][0][0] == "call" and kr[3][0][1].endswith("::len"):
-                        ok = True
-                        why = "sort_by_key(|o| Reverse(o.len())) dominates"
-                    else:
-                        why = "sort key is %s, expected Reverse(len(option)) (longer alternatives first)" % txt
+                kind, why = _sort_key_kind(lib, fi, t, tgt)
+                ok = kind is not None
             if ok:
-                ctx.ok("ALT-1", path, {"mechanism": why}, b.loc(s.get("line")))
+                kinds[(path, bi)] = kind
+                ctx.ok("ALT-1", path, {"mechanism": why, "ordered_by": kind}, b.loc(s.get("line")))
             else:
                 ctx.violation("ALT-1", (path, "Expression::Alternation"), "alternation constructed without ordering its alternatives longest-first: %s" % why, b.loc(s.get("line")))
+    return {"makers": makers, "kinds": kinds}
+
+
+def alt2(ctx, lib, alt):
+    """ALT-2: an alternation that becomes the result *without being self-checked afterwards* (the last resort of the entry function) must be ordered by the
+    number of chars its alternatives match.  Ordering by Expression::len() is ordering by graphemes, and a converted repetition such as a{3} is one grapheme:
+    `a|ab|aaa` with repetition conversion and no end anchor became ab|a|a{3}, where searching `aaa` stops after `a`."""
+    rid = "ALT-2"
+    if not alt:
+        return
+    makers, kinds = alt["makers"], alt["kinds"]
+    entries = [b for b in lib.bodies if b.kind in ("fn", "assoc_fn") and b.sig_output and b.sig_output.startswith("regexp::RegExp")
+               and any("std::vec::Vec<std::string::String>" in t for t in b.sig_inputs)]
+    if not ctx.floor(rid, "entry functions (test cases, settings) -> RegExp", len(entries), 1):
+        return
+    checkers = {b.path for b in lib.bodies if any(re.match(r"^regex::Regex::(?:new|find|is_match|find_iter)", callee_name(t) or "") for _, t in b.calls())}
+    n = 0
+    for E in entries:
+        fi = guards.FnInfo.of(E)
+        sites = []
+        for bi, t in E.calls():
+            nm = callee_name(t) or ""
+            if nm in makers:
+                ks = {k for (p_, _), k in kinds.items() if p_ == nm}
+                sites.append((bi, t.get("line"), nm, ks.pop() if len(ks) == 1 else None))
+        for (p_, bi), k in kinds.items():
+            if p_ == E.path:
+                sites.append((bi, None, "Expression::Alternation", k))
+        for bi, line, what, kind in sites:
+            n += 1
+            after = fi.cfg.reachable_from(bi) - {bi}
+            checked = False
+            for bj in after:
+                t2 = E.blocks[bj].get("term")
+                if t2 and t2["k"] == "call":
+                    nm2 = callee_name(t2) or ""
+                    if nm2 in checkers:
+                        checked = True
+                    for a in t2["args"]:
+                        for x in local.walk(fi.defs.operand(a)):
+                            if x[0] == "agg" and x[1] == "closure" and x[2] in checkers:
+                                checked = True
+            if checked:
+                ctx.ok(rid, "%s:%s#bb%d" % (E.path, what.rsplit("::", 1)[-1], bi), {"self_checked_afterwards": True}, E.loc(line))
+            elif kind == "chars":
+                ctx.ok(rid, "%s:%s#bb%d" % (E.path, what.rsplit("::", 1)[-1], bi), {"self_checked_afterwards": False, "ordered_by": "chars matched"}, E.loc(line))
+            else:
+                ctx.violation(rid, (E.path, "unchecked alternation ordered by " + (kind or "?")),
+                              "the last-resort alternation built by %s is ordered by %s and is not self-checked afterwards: a converted repetition counts as one grapheme, "
+                              "so a shorter alternative can precede a longer one that starts with it (a, ab, aaa with repetitions and no end anchor -> ab|a|a{3}; searching "
+                              "`aaa` returns `a`)" % (what, "number of graphemes (Expression::len)" if kind == "graphemes" else "an unrecognised key"), E.loc(line))
+    ctx.floor(rid, "alternations built directly by the entry function", n, 1)
 
 
 def _same_root(fi, op_a, op_b):
@@ -138,7 +234,8 @@ def self_check(ctx, lib, roles):
     if not ctx.floor("SCK-1", "call sites of the alternation self-check", len(sites), 1):
         return
     f_end, f_start = roles.get("no_end_anchor"), roles.get("no_start_anchor")
-    for body, blk, term in sites:
+    def judge(body, blk, depth=0):
+        """(narrowing guards, end-anchor guard seen, guard list) for one call site; a helper that does not test the setting itself is judged at each of its own call sites"""
         gs = [g for g in guards.guards(body, blk) if not g["loop"]]
         cfg_guards = [(common.origin_config_field(g["origin"]), guards.edge_truth(g), g) for g in gs]
         narrowing = []
@@ -154,13 +251,28 @@ def self_check(ctx, lib, roles):
                 has_end = True
             else:
                 narrowing.append("setting `%s` == %s" % (f, truth))
+        shown = ["%s==%s" % (f, t) for f, t, _ in cfg_guards]
+        if not has_end and depth < 3 and not body.is_pub:
+            root = lib.body(body.parent) if body.kind == "closure" else body
+            up = guards.call_sites(lib, root.path)
+            if up:
+                has_end = True
+                for b2, blk2, _ in up:
+                    n2, h2, s2 = judge(b2, blk2, depth + 1)
+                    narrowing += n2
+                    has_end = has_end and h2
+                    shown += ["%s: %s" % (b2.path, x) for x in s2]
+        return narrowing, has_end, shown
+
+    for body, blk, term in sites:
+        narrowing, has_end, shown = judge(body, blk)
         if narrowing or not has_end:
             ctx.violation("SCK-1", (body.path, rot.path),
                           "alternation order is observable whenever '$' is absent, but the self-check additionally requires %s%s: with only the end anchor disabled "
                           "a shorter alternative can win the leftmost-first search" % (", ".join(narrowing) or "nothing", "" if has_end else " and does not test the end-anchor setting"),
                           body.loc(term.get("line")))
         else:
-            ctx.ok("SCK-1", "%s->%s" % (body.path, rot.path), {"guards": ["%s==%s" % (f, t) for f, t, _ in cfg_guards]}, body.loc(term.get("line")))
+            ctx.ok("SCK-1", "%s->%s" % (body.path, rot.path), {"guards": shown}, body.loc(term.get("line")))
     # SCK-2: the per-test-case predicate
     from sa import callgraph
     reach = callgraph.CallGraph(lib).reachable([rot.path])
@@ -191,17 +303,88 @@ def self_check(ctx, lib, roles):
                           % sorted(n for n in names if n.startswith("regex::") or n.endswith("::count")), b.loc())
 
 
+def pipe1(ctx, lib):
+    """PIPE-1: every stage of the entry function (automaton from the minimised trie, automaton from the raw trie, last-resort alternation) is built from
+    the *same* vector of converted grapheme clusters.  A stage fed by freshly built clusters silently drops the requested conversions, so disabling the end anchor
+    would change the language of the body."""
+    rid = "PIPE-1"
+    CL = "cluster::GraphemeCluster"
+    entries = [b for b in lib.bodies if b.kind in ("fn", "assoc_fn") and b.sig_output and b.sig_output.startswith("regexp::RegExp")
+               and any("std::vec::Vec<std::string::String>" in t for t in b.sig_inputs)]
+    if not ctx.floor(rid, "entry functions (test cases, settings) -> RegExp", len(entries), 1):
+        return
+    for E in entries:
+        bodies = [E] + [c for c in lib.bodies if c.kind == "closure" and c.parent == E.path]
+        sources = {}
+        n_sites = 0
+
+        def source_of(body, d, o, depth=0):
+            """root producer call of a cluster value: (callee, body path, block) or ('param'|'unknown', ..)"""
+            for x in local.walk(o):
+                if x[0] == "call" and lib.body(x[1]) is not None and CL in (lib.body(x[1]).sig_output or "") and not lib.body(x[1]).derived:
+                    return (x[1], body.path, x[3] if len(x) > 3 else None)
+            if body.kind == "closure" and depth < 3 and any(x[0] == "param" for x in local.walk(o)):
+                site = common.closure_site(lib, body)
+                if site is not None:
+                    parent, pd, _ = site
+                    for bj, t2 in parent.calls():
+                        ops = [pd.operand(a) for a in t2["args"]]
+                        if any(local.peel(o2)[0] == "agg" and local.peel(o2)[1] == "closure" and local.peel(o2)[2] == body.path for o2 in ops):
+                            return source_of(parent, pd, ops[0], depth + 1)
+            return ("unknown", body.path, local.show(o)[:80])
+
+        for b in bodies:
+            d = local.Defs(b)
+            for bi, t in b.calls():
+                cb = lib.body(callee_name(t) or "")
+                if cb is None or cb.derived:
+                    continue
+                idx = [i for i, ty in enumerate(cb.sig_inputs) if CL in ty]
+                if not idx or CL in (cb.sig_output or ""):
+                    continue        # not a consumer (or itself a cluster producer/transformer)
+                if not re.search(r"dfa::Dfa|expression::Expression", cb.sig_output or ""):
+                    continue
+                n_sites += 1
+                src = source_of(b, d, d.operand(t["args"][idx[0]]))
+                sources.setdefault(src, []).append((b, bi, t, cb))
+        if not ctx.floor(rid, "stages consuming grapheme clusters in " + E.path, n_sites, 2):
+            continue
+        main = [s_ for s_ in sources if s_[1] == E.path and s_[0] not in ("unknown",)]
+        if len(sources) == 1 and main:
+            ctx.ok(rid, E.path, {"stages": n_sites, "single_source": main[0][0]}, E.loc())
+            continue
+        if any(s_[0] == "unknown" for s_ in sources):
+            u = [s_ for s_ in sources if s_[0] == "unknown"][0]
+            ctx.undecided(rid, E.path, "cannot trace the clusters consumed at %s back to their producer (%s)" % (u[1], u[2]), E.loc())
+            continue
+        # the source of the first (dominating) stage is the reference
+        ref = None
+        for s_, sites in sources.items():
+            if any(b is E and bi == min(bi2 for ss in sources.values() for b2, bi2, _, _ in ss if b2 is E) for b, bi, _, _ in sites):
+                ref = s_
+        for s_, sites in sources.items():
+            if s_ == ref:
+                continue
+            b, bi, t, cb = sites[0]
+            ctx.violation(rid, (E.path, "stage " + cb.path.rsplit("::", 1)[-1] + " fed by " + s_[0].rsplit("::", 1)[-1]),
+                          "%s is fed by clusters produced by %s (in %s) while the main path uses %s: this stage ignores whatever conversions the shared vector went through, "
+                          "so the pattern body differs from the anchored build for inputs that reach it" % (cb.path, s_[0], s_[1], ref[0] if ref else "?"), b.loc(t.get("line")))
+
+
 def run(ctx):
     ctx.rule("ANC-1", "ccp over <RegExp as Display>::fmt (Component rendering inlined): on every abstract path the literal skeleton is "
                       "<flag><^ iff start anchor enabled><group> expr <)><$ iff end anchor enabled>, and no later replace touches skeleton characters")
-    ctx.rule("ALT-1", "every construction of Expression::Alternation is dominated by sort_by_key(Reverse(len)) of the stored vector")
+    ctx.rule("ALT-1", "every construction of Expression::Alternation is dominated by a longest-first sort (Reverse(len) or Reverse(char count)) of the stored vector or of its element-wise pre-image")
+    ctx.rule("ALT-2", "an alternation that becomes the result without a later self-check (last resort) is ordered by the chars its alternatives match, not by graphemes")
+    ctx.rule("PIPE-1", "all stages of the entry function (minimised automaton, raw-trie automaton, last-resort alternation) consume the same converted cluster vector")
     ctx.rule("SCK-1", "the alternation-order self-check is guarded by the end-anchor setting alone (plus 'pattern compiled'): order is observable whenever '$' is absent")
     ctx.rule("SCK-2", "the per-test-case predicate of the self-check inspects the match extent (regex::Match accessor), not just a match count")
     ctx.assume("with '$' present a leftmost-first search on a member of the language ends at the end of the string (regex crate semantics)")
     ctx.assume("indent_regexp only adds indentation (its colour-independence is C15 IND-1; its content preservation is not decided)")
     prog = common.view(ctx, "default")
     lib = prog.lib
-    roles = common.role_fields(ctx, lib)
+    roles = common.role_fields(ctx, lib, want=common.FMT_ROLES)
     anc1(ctx, lib, roles)
-    alt1(ctx, lib)
+    alt2(ctx, lib, alt1(ctx, lib))
+    pipe1(ctx, lib)
     self_check(ctx, lib, roles)
